@@ -407,6 +407,7 @@ pub trait QT: Send + Sync + 'static + Sized {
     fn from_trait(p: Self::P) -> Self;
     fn i_clear(&mut self);
     fn i_neg(&mut self);
+    fn display_string(&self) -> String;
     fn into_posit_by_ref(&self) -> Self::P;
     fn into_posit_by_value(self) -> Self::P;
     fn i_into_two(self) -> (Self::P, Self::P);
@@ -478,6 +479,9 @@ macro_rules! impl_qt {
             }
             fn i_neg(&mut self) {
                 <$Q>::neg(self)
+            }
+            fn display_string(&self) -> String {
+                format!("{} {:?}", self, self)
             }
             fn into_posit_by_ref(&self) -> $P {
                 <$P as From<&$Q>>::from(self)
